@@ -403,10 +403,24 @@ def c02_rules(view, bs):
             obligations += 1
             after = view.reachable(bb)
             for r in sorted(after):
-                if r in next_bbs or r in child_bbs or (r in site_bbs and site_bbs[r].handling == "switched"):
+                if r in next_bbs or r in child_bbs or r in missing_bbs or (r in site_bbs and site_bbs[r].handling == "switched"):
                     out.append(finding("C02.LATE", view,
                                        "the accumulated error is inspected before all examination is done", bb))
                     break
+
+    # any other look at an accumulator (borrow, e.g. `error.is_none()`) while examination remains
+    for acc, ss in sorted(accs.items()):
+        for bb in sorted(view.reach):
+            looked = False
+            for st in view.blocks[bb]["stmts"]:
+                if st["k"] == "assign" and st["rv"]["k"] in ("ref", "rawptr") and st["rv"]["place"]["l"] == acc:
+                    looked = True
+            if not looked:
+                continue
+            obligations += 1
+            after = view.reachable(bb)
+            if any(r in next_bbs or r in child_bbs or r in missing_bbs or (r in site_bbs and site_bbs[r].handling == "switched") for r in after):
+                out.append(finding("C02.LATE", view, "the accumulated error is looked at (borrowed) before all examination is done", bb))
 
     # ---- C02.STRUCT: unconditional stops (outside Break paths) hide nothing
     exam = set(next_bbs) | set(b for b, c in child_bbs.items() if not c["delegating"]) | \
